@@ -352,6 +352,17 @@ ApplyMCmpLit(c, h, swap) ==
         ELSE May(CLObj([i \in 1..Len(ea) |-> mk(i, Const(l.qs[((i - 1) % nc) + 1]))]))
     ELSE Raised("must")
 
+(* ---------------------------------------------------------------- problem assembly *)
+\* Problem().minimize|maximize(h[a]).subject_to(h[b]).subject_to(h[k])   (b, k optional: 0)
+ConsOf(o) == IF o.kind = "C" THEN <<[den |-> o.den, sense |-> o.sense]>> ELSE o.cons
+PRObj(t, sense, cons) == [kind |-> "PR", obj |-> t, sense |-> sense, cons |-> cons, may |-> FALSE]
+ApplyProblem(c, h) ==
+    IF h[c.a].kind # "S" THEN Raised("type")
+    ELSE IF c.b # 0 /\ h[c.b].kind \notin {"C", "CL"} THEN Raised("type")
+    ELSE IF c.k # 0 /\ h[c.k].kind \notin {"C", "CL"} THEN Raised("type")
+    ELSE PRObj(h[c.a].den, c.op,
+               (IF c.b = 0 THEN <<>> ELSE ConsOf(h[c.b])) \o (IF c.k = 0 THEN <<>> ELSE ConsOf(h[c.k])))
+
 (* ---------------------------------------------------------------- dispatch *)
 ApplyCore(c, h) ==
   CASE c.c = "MkVar"     -> ApplyMkVar(c)
@@ -379,6 +390,7 @@ ApplyCore(c, h) ==
     [] c.c = "Cmp"       -> ApplyCmp(c, h)
     [] c.c = "CmpLit"    -> ApplyCmpLit(c, h, FALSE)
     [] c.c = "RCmpLit"   -> ApplyCmpLit(c, h, TRUE)
+    [] c.c = "Problem"   -> ApplyProblem(c, h)
     [] c.c = "MGet"      -> ApplyMGet(c, h)
     [] c.c = "Transpose" -> ApplyTranspose(c, h)
     [] c.c = "Diagonal"  -> ApplyDiagonal(c, h)
